@@ -16,7 +16,8 @@ def classifyEvict (c : Ctx) (pre : EState) (cmd : List Bytes) (modelVerdict : St
   let n := toLower (cmd.headD [])
   let pol := c.cfg.policy
   if modelVerdict == "rej:down" then
-    if hang then some "allkeys-random-spins-with-nothing-to-evict"
+    if n == b "@tick" then some "background-sampler-pass-never-returns"
+    else if hang then some "allkeys-random-spins-with-nothing-to-evict"
     else if hasNilCell pre then some "flush-leaves-nil-heap-cells"
     else if !pre.s.hasDb c.db && (n == b "flushdb" || n == b "flushall") then some "flushdb-before-first-write-panics"
     else if !pre.s.hasDb c.db && (n == b "objectfreq" || n == b "objectidletime") then some "object-command-before-first-write-panics"
